@@ -7,6 +7,9 @@ use std::path::Path;
 use std::process;
 
 fn main() {
+    // Declares the cfg flag guarding the verification hooks (off by default).
+    println!("cargo:rustc-check-cfg=cfg(zinoma_verif)");
+
     // OUT_DIR is set by Cargo and it's where any additional build artifacts
     // are written.
     let outdir = match env::var_os("OUT_DIR") {
